@@ -346,6 +346,9 @@ class Outcome:
             explanation=self.rule,
         )
         cov.update(self.extra)
+        if cov["states"] == 0 or cov["transitions"] == 0:
+            # no behaviour spec was explored (constant-level evaluation): fall back to the generic counts
+            del cov["states"], cov["transitions"]
         ev = dict(property_id=self.pid, tier=self.tier, seed=seed(), level=self.level, coverage=cov,
                   assumptions=self.assumptions, wall_s=round(time.time() - self.t0, 2),
                   violations=len(seen), repo_tree=tree_hash()[:16])
